@@ -201,7 +201,10 @@ type workerRes struct {
 
 func runWorker(bin string, env []string, timeout time.Duration) (int, string) {
 	cmd := exec.Command(bin, "-test.run", "^TestWorker$", "-test.timeout", "0", "-test.v=false")
-	cmd.Env = append(os.Environ(), env...)
+	// asyncpreemptoff: goroutines of a worker yield only where they block, never
+	// at a wall-clock driven preemption signal, so that what runs between two
+	// scheduler decisions does not depend on real time
+	cmd.Env = append(append(os.Environ(), "GODEBUG=asyncpreemptoff=1"), env...)
 	cmd.Dir = workDir()
 	var outb strings.Builder
 	cmd.Stdout = &outb
